@@ -1,6 +1,7 @@
 import FordModel.Proto
 import FordModel.External
 import FordModel.ExternalGraph
+import FordModel.ExternalAssoc
 namespace Ford
 open Proto Ext
 
@@ -183,6 +184,80 @@ partial def decProjects : Nat → List Str → List (Base × Fetch) → Option (
       | none => none
   | _ + 1, _, _ => none
 
+/-! `c16.assoc`: modules of B that use modules of A (directly or through modules of B).
+
+  table := <count> key*                      (B's own entities: only the key matters)
+  spec  := `A` | `O<count>` (local orig)* | `R<count>` (local orig)*
+  mod   := name <public 0|1> <count> listed* table*4 (ownPub) table*4 (ownAll) <count> (target spec)*
+-/
+def ownItem (k : Str) : Item := { ext := false, cls := "local".toList, name := .str k, url := .null }
+
+def decTbl : List Str → Option (Tbl × List Str)
+  | cnt :: r =>
+    let n := natOf cnt
+    if r.length < n then none else some ((r.take n).map (fun k => (k, ownItem k)), r.drop n)
+  | [] => none
+
+def decPub (r : List Str) : Option (Pub × List Str) :=
+  match decTbl r with
+  | some (a, r1) => match decTbl r1 with
+    | some (b, r2) => match decTbl r2 with
+      | some (c, r3) => match decTbl r3 with
+        | some (d, r4) => some (⟨a, b, c, d⟩, r4)
+        | none => none
+      | none => none
+    | none => none
+  | none => none
+
+def decPairs : Nat → List Str → List (Str × Str) → Option (List (Str × Str) × List Str)
+  | 0, r, acc => some (acc.reverse, r)
+  | n + 1, a :: b :: r, acc => decPairs n r ((a, b) :: acc)
+  | _ + 1, _, _ => none
+
+def decSpec : List Str → Option (Spec × List Str)
+  | ['A'] :: r => some (.all, r)
+  | ('O' :: d) :: r => (decPairs (natOf d) r []).map (fun x => (.only x.1, x.2))
+  | ('R' :: d) :: r => (decPairs (natOf d) r []).map (fun x => (.renaming x.1, x.2))
+  | _ => none
+
+def decUses : Nat → List Str → List (Str × Spec) → Option (List (Str × Spec) × List Str)
+  | 0, r, acc => some (acc.reverse, r)
+  | n + 1, t :: r, acc =>
+    match decSpec r with
+    | some (sp, r') => decUses n r' ((t, sp) :: acc)
+    | none => none
+  | _ + 1, [], _ => none
+
+def decBMod : List Str → Option (BMod × List Str)
+  | name :: pub :: cnt :: r =>
+    let n := natOf cnt
+    if r.length < n then none else
+    match decPub (r.drop n) with
+    | some (op, r1) => match decPub r1 with
+      | some (oa, nu :: r2) => match decUses (natOf nu) r2 [] with
+        | some (us, r3) => some ({ name := name, isPublic := pub == ['1'], publicList := r.take n, ownPub := op,
+                                   ownAll := oa, uses := us }, r3)
+        | none => none
+      | _ => none
+    | none => none
+  | _ => none
+
+def decBMods : Nat → List Str → List BMod → Option (List BMod)
+  | 0, [], acc => some acc.reverse
+  | 0, _ :: _, _ => none
+  | n + 1, r, acc =>
+    match decBMod r with
+    | some (m, r') => decBMods n r' (m :: acc)
+    | none => none
+
+/-- the imported entries of a table, in the table's order: `<count> (key class name url)*` -/
+def encExtOnly (t : Tbl) : List Str :=
+  let xs := t.filter (fun kv => kv.2.ext)
+  showNat xs.length :: (xs.map (fun kv => [kv.1, kv.2.cls, renderJ kv.2.name, renderJ kv.2.url])).flatten
+
+def encPubExt (p : Pub) : List Str :=
+  encExtOnly p.procs ++ encExtOnly p.absints ++ encExtOnly p.types ++ encExtOnly p.vars
+
 end C16
 
 open C16 in
@@ -257,6 +332,22 @@ def dispatchC16 : List Str → Option (List Str)
                                     visible := vis == ['1'] } with
         | none => some ["none".toList]
         | some u => some ["some".toList, u]
+      | _ => some ["bad-request".toList]
+    else if cmd == "c16.assoc".toList then
+      -- c16.assoc <remote> <base> json <count> mod*  ->  ok (name table*8)* : the imported entries of pub_* / all_*
+      match args with
+      | rem :: url :: r =>
+        match decJson r with
+        | some (doc, cnt :: r') =>
+          match decBMods (natOf cnt) r' [] with
+          | some ms =>
+            match importDoc (baseOf rem url) doc with
+            | .ok os =>
+              some ("ok".toList :: ((correlateAll (extModulesOf os) ms []).map
+                (fun x => x.1 :: (encPubExt x.2.1 ++ encPubExt x.2.2))).flatten)
+            | .error e => some (errOut e)
+          | none => some ["bad-request".toList]
+        | _ => some ["bad-request".toList]
       | _ => some ["bad-request".toList]
     else if cmd == "c16.use".toList then
       -- c16.use <name> <nLocal> (name ext)* <nExt> (name ext)*
